@@ -60,6 +60,8 @@ class Oracle(object):
             task_exp = self.qexp.pop(op[1])
         if op[0] == 'resp' and op[1] < len(env.sent) and not env.sent[op[1]].get('answered'):
             resp_ctx = dict(env.sent[op[1]])
+            if resp_ctx['kind'] == 0 and resp_ctx.get('page', 0) != getattr(run.future, '_page_no', 0):
+                resp_ctx = None      # the answer of an execution of an earlier page fetch: dropped by the driver, nothing to expect
         if op[0] == 'pool':
             pools[op[1]] = op[2]
         obs = run.step(op)
@@ -162,6 +164,15 @@ class Oracle(object):
                 # PREPARE, nothing further is sent or scheduled for it
                 self.flag('after_failure.message_sent', 'the request had already failed, yet the answer %r to the PREPARE on host %d '
                           'caused %r to be sent (%r)' % (task_exp['resp'], task_exp['host'], sends, op), 'C19_prepare_error_fails_and_stops')
+        # ------------------------------------------------ pool accounting of the connections this request used
+        acc = run.accounting()
+        if acc and not getattr(self, 'acc_flagged', False):
+            self.acc_flagged = True
+            ctxname = {'reprepare': 'reprepare', 'after_prepare': 'reprepare'}.get(task_exp['kind'] if task_exp else '', 'request')
+            self.flag(ctxname + '.connection_accounting',
+                      'after %r: (connection, host, in_flight, unanswered requests on it) = %r: a connection was returned to its pool '
+                      'twice / never returned' % (op, acc),
+                      {'C16': 'C16_consulted_once_and_obeyed', 'C17': 'C17_other_sends_are_tasks'}.get(self.which, 'C19_resend'))
         # ------------------------------------------------ C17: exhaustion
         if self.which == 'C17' and st['exc'] and st['exc'][0] == 5 and not (pre_state and pre_state['exc'] == st['exc']):
             keys = [st['exc'][2 + i] for i in self.err_offsets(st['exc'])]
